@@ -255,6 +255,29 @@ func oracleAfterAttempt(sc *br.Scenario, w *br.World, before, after *br.Snapshot
 				}
 			}
 		}
+		// a Rollback that was itself disturbed: what the disturbed calls were about may stay behind, but a
+		// failure while removing one kind of side effect must not leave ANOTHER kind behind. Judged here: the
+		// claim reservation (no sync ever removes it) when every disturbed call of the Rollback concerns
+		// something other than a ResourceClaim and the Rollback did not crash.
+		if ao.RollbackRel >= 0 && rollbackDisturbed && sc.Target.Opts.Claim != "" {
+			claimCallDisturbed := devTouches(ao.Devs, func(c br.Call) bool {
+				return c.Idx-ao.Calls[0].Idx >= ao.RollbackRel && strings.HasPrefix(c.Target, "ResourceClaim")
+			})
+			crashed := false
+			for _, d := range ao.Devs {
+				if d.Dev == br.Crash {
+					crashed = true
+				}
+			}
+			if !claimCallDisturbed && !crashed {
+				if c := after.Claim(sc.Target.Opts.Claim); c != nil && claimReservedFor(c.Status.ReservedFor, pod) {
+					bc := before.Claim(sc.Target.Opts.Claim)
+					if bc == nil || !claimReservedFor(bc.Status.ReservedFor, pod) {
+						f = append(f, br.Finding{Key: "claim-reservation-not-rolled-back-after-unrelated-rollback-failure", Msg: fmt.Sprintf("ResourceClaim %s stays reservedFor the unbound pod although no call on a ResourceClaim failed: the Rollback stopped at the failure of another side effect's removal", c.Name)})
+					}
+				}
+			}
+		}
 	}
 	return f
 }
